@@ -47,7 +47,9 @@ def skeleton_pieces(ctx):
         ('R17', r'taskSet\.numPoolThreads\(\)', 'G_numPoolThreads()', 1),
         ('R17', r'detail::PerPoolPerThreadInfo::isParForRecursive\(&taskSet\.pool\(\)\)', 'G_isRecursive()', 1),
         ('R17', r'detail::initStates\(\s*states,\s*defaultState,', 'G_initStates('),
-        ('R13', r'f\(\*states\.begin\(\),\s*range\.start,\s*range\.end\);', 'G_body(0, range.start, range.end);'),
+        # a serial fallback: the bounds are captured as written; the contract (C12) demands that they are the whole range, because nothing
+        # else visits any index on that path
+        ('R13', r'f\(\*states\.begin\(\),\s*([\w.>-]+),\s*([\w.>-]+)\);', r'G_body_whole(0, \1, \2, range.start, range.end);'),
         ('R9', r'auto\s+chunkSizing\s*=\s*detail::adjustChunkSizing\(parRange,', 'ChunkSizingResult chunkSizing = adjustChunkSizing(&parRange,', 1),
         ('R17', r'detail::parallel_for_staticImpl\(\s*taskSet,\s*states,\s*defaultState,\s*parRange,\s*std::forward<F>\(f\),', 'G_staticImpl(&parRange,', 1),
         ('R9', r'auto\s+chunkInfo\s*=\s*parRange\.calcChunkSize\(', 'Tuple2 chunkInfo = ChunkedRange_calcChunkSize(&parRange, ', 1),
